@@ -28,6 +28,7 @@ META = dict(
     technique="loop-form accounting, effects (who-may-write), decision table + derivative sign, writer/reader constant agreement",
 )
 META["text"] += ' (R6, N) CVR and Stratum constructors store id, votes, phantom, tally_pool, pool / max_cards, use_style from the parameters of the same name.'
+META["text"] += " (R7 = C17.R3) the manifest's phantom batch holds max_cards - manifest_cards cards."
 
 
 def run(chk):
